@@ -182,8 +182,17 @@ func (e *c07Env) exec(idx int, sc *c07Sc) (st c07Status, okey string) {
 	// ---- outcome
 	var legal map[string]bool
 	if sc.Expect != nil {
+		exp := sc.Expect
+		if sc.ExpectOrdered != nil {
+			if x.lateOrdered() {
+				exp = sc.ExpectOrdered
+				m.Count("late_panic_order_confirmed_by_stamps", 1)
+			} else {
+				m.Count("late_panic_order_not_confirmed", 1)
+			}
+		}
 		legal = map[string]bool{}
-		for _, k := range sc.Expect {
+		for _, k := range exp {
 			legal[k] = true
 		}
 	} else {
